@@ -605,8 +605,17 @@ def zmats(fs):
     return "[" + "; ".join(zmat(f) for f in fs) + "]" if len(fs) else "(@nil (list (list Z)))"
 
 
+NONFINITE = float(2 ** 200) * 1.2345  # stands for NaN / inf in a case literal: an implementation output that is not finite can
+# never equal the (finite) model value, so the case becomes a disagreement instead of crashing the literal printer (coordinator, end-game)
+
+
+def _fin(x):
+    x = float(x)
+    return x if np.isfinite(x) else NONFINITE
+
+
 def qrow(r):
-    return C.q_list([float(x) for x in r])
+    return C.q_list([_fin(x) for x in r])
 
 
 def qmat(A):
@@ -624,7 +633,7 @@ def ztens(a):
 
 def qtens(a):
     a = np.asarray(a)
-    return C.qtensor(list(a.shape), [float(x) for x in a.ravel()])
+    return C.qtensor(list(a.shape), [_fin(x) for x in a.ravel()])
 
 
 def ztens_list(ts):
@@ -1126,8 +1135,8 @@ def run(chk):
     # the union question (one Print Assumptions for all theorems) only where an over-approximation is good enough: the thorough tier and
     # VERIF_PA_EXACT=1 ask per theorem through common.print_assumptions (exact lists)
     import os as _os
-    if chk.tier == "quick" and not _os.environ.get("VERIF_PA_EXACT"):
-        C.print_assumptions = union_print_assumptions
+    # (end-game, coordinator) common.print_assumptions now has the union fast path AND reuses the exact per-theorem cache written by the
+    # thorough tier, so the local override is no longer installed
     try:
         chk.build_proofs()
     finally:
